@@ -2,10 +2,15 @@
 // Reads cases from stdin, prints one canonical line per operation (see lean/Drivers/C14.lean).
 //
 //   case <id> agg <v|a> <n> <script_0> ... <script_{n-1}>
-//       mode v: generator<int>, mode a: generator<int,int> (every access carries an argument)
+//       mode v: generator<int>, mode a: generator<int,int> (every access carries an argument), mode r:
+//       generator<int,targ> - the argument is a NON-trivially-copyable object whose life time is tracked (a read of a
+//       destroyed argument object is reported as `dead`)
 //       script: acts separated by ',', optional '*' separates the prefix from an endlessly repeated cycle,
 //               '-' = empty.  acts: y (yield the next value of this source), a (co_await a future that the
-//               input resolves later), t<c> (throw test_exc(c)).   the j-th yield of source k is (k+1)*1000+j
+//               input resolves later), ar (like a, and after the await has completed the source fetches its argument
+//               AGAIN with `co_yield nullptr`: the generator carries the argument by reference, so this reads the
+//               caller's object after a suspension; without argument = a), t<c> (throw test_exc(c)).
+//               the j-th yield of source k is (k+1)*1000+j
 //   next <arg>            synchronous access: if (gen.next(arg)) gen.value()
 //   inext <arg>           iterator access (mode v): it = gen.begin() / ++it ; it == gen.end() ? end : *it
 //   fnext <arg>           future access: f = gen(arg); polled after every op
@@ -17,6 +22,8 @@
 //   bnext <arg> k1 k2..   synchronous (blocking) access while a second thread resolves sources k1 k2 ..
 //   res <k> / tres <k>    resolve the future source k awaits, on this thread / on a second thread (joined)
 //   destroy k1 k2 ..      destroy the aggregate (parked) while a second thread resolves k1 k2 ..
+//   cdestroy k1 k2 ..     the same, but the aggregate is destroyed by a running coroutine (the thread's coroutine queue
+//                         is active while the controller destructor waits for the in-flight sources)
 //   stress <limit> <style> <seed>   one resolver thread per asynchronous source; the consumer blocks on this
 //                         thread (style 0 next/value, 1 iterator, 2 future+sync, 3 consumer coroutine with co_await next(), 4 consumer
 //                         coroutine blocking in next()) until <limit> values or the end;
@@ -24,14 +31,16 @@
 //   sdestroy <seed>       destroy the aggregate while the resolver threads are running
 //   end                   settle (resolve in-flight sources until nothing is pending), destroy, account
 //
-// output: `<op> <result> p=<acts executed per source, `e` appended once the body has returned or thrown>` ; events `a<k>=<arg>` (source k received arg) and
-// `got=<result>` (a pending fnext/cnext completed), sorted.
+// output: `<op> <result> p=<acts executed per source, `e` appended once the body has returned or thrown>` ; events `a<k>=<arg>` (source k received arg),
+// `r<k>=<arg>|dead` (source k fetched its argument again after an await: act `ar`) and `got=<result>` (a pending fnext/cnext completed), sorted.
 #include "common.h"
 #include <cocls/generator.h>
 #include <cocls/generator_aggregator.h>
 #include <cocls/async.h>
 #include <atomic>
 #include <optional>
+#include <set>
+#include <mutex>
 #include <functional>
 #include <thread>
 #include <chrono>
@@ -59,9 +68,39 @@ struct body_guard {
     ~body_guard() { --g_guards; }
 };
 
+// Argument type of mode r: not trivially copyable, every object is registered while it is alive, so that a source
+// reading its argument through the reference it was given can tell a live object from a destroyed one (the storage
+// of a destroyed coroutine-frame local stays readable, the sanitizers do not see that).
+struct targ;
+static std::mutex g_targ_mx;
+static std::set<const targ *> g_targ_live;
+static std::atomic<long> g_argbad{0};   // stress: late reads that differ from the argument the source was charged with
+struct targ {
+    int v;
+    explicit targ(int x) : v(x) { reg(); }
+    targ(const targ &o) : v(o.read()) { reg(); }
+    targ &operator=(const targ &o) { v = o.read(); return *this; }
+    ~targ() {
+        std::lock_guard _(g_targ_mx);
+        g_targ_live.erase(this);
+    }
+    // -1 = the object is not alive
+    int read() const {
+        std::lock_guard _(g_targ_mx);
+        return g_targ_live.count(this) ? v : -1;
+    }
+private:
+    void reg() {
+        std::lock_guard _(g_targ_mx);
+        g_targ_live.insert(this);
+    }
+};
+static int arg_val(int a) { return a; }
+static int arg_val(const targ &a) { return a.read(); }
+
 struct act_t {
     char kind;  // 'y' 'a' 't'
-    int code;
+    int code;   // t: exception code, a: 1 = fetch the argument again after the await (`ar`)
 };
 
 // the future a scripted source awaits; lets the second thread see whether the source coroutine has really
@@ -83,7 +122,9 @@ struct src_t {
     std::atomic<bool> awaiting{false};
     std::atomic<bool> ended{false};   // the body returned or threw
     std::vector<std::pair<int, int>> *arglog = nullptr;
+    std::vector<std::pair<int, int>> *rlog = nullptr;   // arguments fetched again after an await
     std::mutex *logmx = nullptr;
+    int last_arg = 0;             // the argument received at the last resumption (touched by the source body only)
 
     const act_t *next_act() {
         std::size_t p = (std::size_t)pos.load();
@@ -94,8 +135,14 @@ struct src_t {
         return a;
     }
     void got(int a) {
+        last_arg = a;
         std::lock_guard _(*logmx);
         arglog->push_back({idx, a});
+    }
+    void reread(int a) {
+        if (a != last_arg) ++g_argbad;
+        std::lock_guard _(*logmx);
+        rlog->push_back({idx, a});
     }
     void arm() {
         fut.reset(new probe_future());
@@ -115,8 +162,8 @@ G source_body(src_t *s, frame_guard) {
     body_guard bg;
     constexpr bool has_arg = !G::arg_is_void;
     if constexpr (has_arg) {
-        int a = co_yield nullptr;
-        s->got(a);
+        const auto &a = co_yield nullptr;
+        s->got(arg_val(a));
     }
     for (;;) {
         const act_t *a = s->next_act();
@@ -124,15 +171,25 @@ G source_body(src_t *s, frame_guard) {
         if (a->kind == 'y') {
             int v = (s->idx + 1) * 1000 + s->ny++;
             if constexpr (has_arg) {
-                int r = co_yield v;
-                s->got(r);
+                const auto &r = co_yield v;
+                s->got(arg_val(r));
             } else {
                 co_yield v;
             }
         } else if (a->kind == 'a') {
-            body_guard inner;
-            s->arm();
-            co_await *s->fut;
+            {
+                body_guard inner;
+                s->arm();
+                co_await *s->fut;
+            }
+            if constexpr (has_arg) {
+                if (a->code) {
+                    // the documented way to get at the argument at any time; the generator holds a reference to
+                    // the object its caller passed to next()
+                    const auto &again = co_yield nullptr;
+                    s->reread(arg_val(again));
+                }
+            }
         } else {
             s->ended.store(true);
             throw test_exc(a->code);
@@ -149,6 +206,7 @@ static bool parse_script(const std::string &txt, src_t &s) {
         if (tok == "-") { tok.clear(); return true; }
         if (tok == "y") cur->push_back({'y', 0});
         else if (tok == "a") cur->push_back({'a', 0});
+        else if (tok == "ar") cur->push_back({'a', 1});
         else if (tok[0] == 't') cur->push_back({'t', atoi(tok.c_str() + 1)});
         else return false;
         tok.clear();
@@ -165,9 +223,11 @@ static bool parse_script(const std::string &txt, src_t &s) {
 template <typename G>
 struct case_runner {
     static constexpr bool has_arg = !G::arg_is_void;
+    // the object handed to the aggregate with an access (int or targ); it lives as long as the access
+    using arg_t = std::conditional_t<has_arg, typename G::arg_type, int>;
     std::vector<std::unique_ptr<src_t>> srcs;
     std::unique_ptr<G> gen;
-    std::vector<std::pair<int, int>> arglog;
+    std::vector<std::pair<int, int>> arglog, rlog;
     std::mutex logmx;
     // the outstanding non-blocking access
     std::unique_ptr<future<int>> fut;          // fnext
@@ -222,9 +282,10 @@ struct case_runner {
         }
     }
 
-    std::string sync_next(int arg) {
+    std::string sync_next(int arg_) {
         try {
             bool b;
+            arg_t arg(arg_);
             if constexpr (has_arg) b = gen->next(arg); else b = gen->next();
             if (!b) return "end";
             int v = gen->value();
@@ -234,9 +295,10 @@ struct case_runner {
         }
     }
 
-    static async<void> consumer(case_runner *me, int arg) {
+    static async<void> consumer(case_runner *me, int arg_) {
         try {
             bool b;
+            arg_t arg(arg_);
             if constexpr (has_arg) b = co_await me->gen->next(arg); else b = co_await me->gen->next();
             if (!b) me->coresult = "end";
             else {
@@ -264,9 +326,9 @@ struct case_runner {
     }
     static async<void> batch_consumer(case_runner *me, std::vector<std::pair<char, int>> accs) {
         for (auto &ac : accs) {
-            int arg = ac.second;
+            arg_t arg(ac.second);
             std::string r;
-            if (ac.first == 'n') r = me->sync_next(arg);
+            if (ac.first == 'n') r = me->sync_next(ac.second);
             else if (ac.first == 'i') r = me->iter_next();
             else {
                 try {
@@ -334,10 +396,13 @@ struct case_runner {
     void flush_args() {
         std::lock_guard _(logmx);
         if (has_arg) {
+            auto val = [](int v) { return v < 0 ? std::string("dead") : std::to_string(v); };
             std::sort(arglog.begin(), arglog.end());
-            for (auto &p : arglog) evs.push_back("a" + std::to_string(p.first) + "=" + std::to_string(p.second));
+            for (auto &p : arglog) evs.push_back("a" + std::to_string(p.first) + "=" + val(p.second));
+            for (auto &p : rlog) evs.push_back("r" + std::to_string(p.first) + "=" + val(p.second));
         }
         arglog.clear();
+        rlog.clear();
     }
 
     void out(const std::string &head) {
@@ -368,17 +433,31 @@ struct case_runner {
         return true;
     }
 
-    void do_destroy(const std::vector<int> &helpers) {
+    // a coroutine that drops the aggregate, as any consumer coroutine does when it is done with it
+    static async<void> destroyer(case_runner *me) {
+        me->gen.reset();
+        co_return;
+    }
+    void drop(bool in_coro) {
+        if (in_coro) {
+            future<void> f([&] { return destroyer(this).start(); });
+            f.wait();
+        } else {
+            gen.reset();
+        }
+    }
+
+    void do_destroy(const std::vector<int> &helpers, bool in_coro = false) {
         std::atomic<bool> bad{false};
         if (helpers.empty()) {
-            gen.reset();
+            drop(in_coro);
         } else {
             helper_begin();
             std::thread th([&] {
                 for (int k : helpers)
                     if (!helper_resolve(k)) bad = true;
             });
-            gen.reset();
+            drop(in_coro);
             th.join();
         }
         destroyed = true;
@@ -429,10 +508,10 @@ struct case_runner {
     static async<void> stress_consumer(case_runner *me, int style, std::function<bool(const std::string &)> *acc) {
         for (;;) {
             std::string r;
-            if (style == 4) r = me->sync_next(0);
+            if (style == 4) r = me->sync_next(++me->stress_arg);
             else {
                 try {
-                    int arg = 0;
+                    arg_t arg(++me->stress_arg);
                     bool b;
                     if constexpr (has_arg) b = co_await me->gen->next(arg); else b = co_await me->gen->next();
                     if (!b) r = "end";
@@ -448,7 +527,9 @@ struct case_runner {
         }
     }
     // prints schedule-independent facts only
+    int stress_arg = 0;    // every access of the stress run carries another argument
     std::string do_stress(int limit, int style, unsigned seed) {
+        g_argbad = 0;
         std::vector<int> consumed(srcs.size(), 0);
         int got = 0, dup = 0, order_bad = 0, unknown = 0;
         std::string result = "cut";
@@ -477,11 +558,11 @@ struct case_runner {
         } else if (limit > 0) {
             for (;;) {
                 std::string r;
-                if (style == 0) r = sync_next(0);
+                if (style == 0) r = sync_next(++stress_arg);
                 else if (style == 1 && !has_arg) r = iter_next();
                 else {
                     try {
-                        int arg = 0;
+                        arg_t arg(++stress_arg);
                         std::unique_ptr<future<int>> f;
                         if constexpr (has_arg) f.reset(new future<int>([&] { return (*gen)(arg); }));
                         else f.reset(new future<int>([&] { return (*gen)(); }));
@@ -512,7 +593,7 @@ struct case_runner {
         std::string res = result.rfind("exc:", 0) == 0 ? "exc" : result;
         std::ostringstream os;
         os << "stress result=" << res << " got=" << got << " dup=" << dup << " order_bad=" << order_bad
-           << " unknown=" << unknown << " lost=" << lost;
+           << " unknown=" << unknown << " lost=" << lost << " argbad=" << g_argbad.load();
         if (result != "cut") os << " notended=" << notended << " threw=" << (threw ? 1 : 0) << " excok=" << excok;
         return os.str();
     }
@@ -529,6 +610,7 @@ struct case_runner {
             auto s = std::make_unique<src_t>();
             s->idx = (int)k;
             s->arglog = &arglog;
+            s->rlog = &rlog;
             s->logmx = &logmx;
             ok = parse_script(hdr[5 + k], *s);
             srcs.push_back(std::move(s));
@@ -545,7 +627,7 @@ struct case_runner {
             g_where = line;
             g_busy = true;
             const std::string &op = w[0];
-            int arg = w.size() > 1 ? atoi(w[1].c_str()) : 0;
+            int arg_ = w.size() > 1 ? atoi(w[1].c_str()) : 0;
             if (op == "end") {
                 if (ok && !destroyed) {
                     // settle: complete the outstanding access / in-flight sources from this thread
@@ -582,7 +664,7 @@ struct case_runner {
                 continue;
             }
             if (op == "next" && !pending) {
-                out("next " + sync_next(arg));
+                out("next " + sync_next(arg_));
             } else if (op == "inext" && !pending && !has_arg) {
                 out("inext " + iter_next());
             } else if (op == "bnext" && !pending && valid_src(w, 2)) {
@@ -594,12 +676,14 @@ struct case_runner {
                     for (int k : ks)
                         if (!helper_resolve(k)) bad = true;
                 });
-                std::string r = sync_next(arg);
+                std::string r = sync_next(arg_);
                 th.join();
                 if (bad) evs.push_back("bad-helper");
                 out("bnext " + r);
             } else if (op == "fnext" && !pending) {
                 try {
+                    // the aggregate takes its copy of the argument while it runs inside this call
+                    arg_t arg(arg_);
                     if constexpr (has_arg) fut.reset(new future<int>([&] { return (*gen)(arg); }));
                     else fut.reset(new future<int>([&] { return (*gen)(); }));
                     std::string r = fut_outcome();
@@ -612,7 +696,7 @@ struct case_runner {
             } else if (op == "cnext" && !pending) {
                 codone = false;
                 coresult.clear();
-                cofut.reset(new future<void>([&] { return consumer(this, arg).start(); }));
+                cofut.reset(new future<void>([&] { return consumer(this, arg_).start(); }));
                 if (codone) {
                     cofut.reset();
                     out("cnext " + coresult);
@@ -668,11 +752,11 @@ struct case_runner {
                 flush_args();
                 evs.clear();
                 vh::emit("sdestroy " + account(), evs);
-            } else if (op == "destroy" && !pending && valid_src(w, 1)) {
+            } else if ((op == "destroy" || op == "cdestroy") && !pending && valid_src(w, 1)) {
                 std::vector<int> ks;
                 for (std::size_t i = 1; i < w.size(); ++i) ks.push_back(atoi(w[i].c_str()));
-                do_destroy(ks);
-                out("destroy " + account());
+                do_destroy(ks, op == "cdestroy");
+                out(op + " " + account());
             } else {
                 vh::emit("bad-op", evs);
             }
@@ -733,6 +817,9 @@ int main() {
         std::cout << "case " << w[1] << "\n";
         if (w[3] == "a") {
             case_runner<generator<int, int>> r;
+            r.run(std::cin, w);
+        } else if (w[3] == "r") {
+            case_runner<generator<int, targ>> r;
             r.run(std::cin, w);
         } else {
             case_runner<generator<int>> r;
